@@ -186,6 +186,7 @@ PROPS = {
             "Replicon.C07.C07_full_state_on_authorization",
             "Replicon.C07.C07_authorize_fresh",
             "Replicon.C07.C07_protocol_check",
+            "Replicon.C07.C07_history",
         ],
         "profiles": [{"name": "sys_auth", "shards": {"thorough": 8}}],
         "rule": SYS_RULE + LOCK + 'For C07 (profile sys_auth: AuthMethod::ProtocolCheck / Custom / None, clients that authorize late or never): oracle: no update or mutate message is ever addressed to a client without AuthorizedClient; after authorization the convergence oracle applies.',
@@ -477,7 +478,7 @@ MANIFEST_TEXT = {
         "technique": "Lean 4 proof (totality, panic-freedom and proportionality of an executable model of the decoders) + differential comparison of decoders on injected bytes against the live server + panic/abort/allocation oracles on the implementation",
     },
     "C07": {
-        "text": 'Lean theorems about the server model: a replication run produces output only for authorized clients (C07_unauthorized_silent); a freshly authorized client is sent every non-hidden replicated entity whole (C07_full_state_on_authorization, C07_authorize_fresh); check_protocol authorizes exactly on equal hashes and otherwise notifies and requests a disconnect (C07_protocol_check). Events for unauthorized clients are part of the event model (C04/C05).',
+        "text": 'Lean theorems about the server model: a replication run produces output only for authorized clients (C07_unauthorized_silent); a freshly authorized client is sent every non-hidden replicated entity whole (C07_full_state_on_authorization, C07_authorize_fresh); check_protocol authorizes exactly on equal hashes and otherwise notifies and requests a disconnect (C07_protocol_check). Over ALL histories of the joint server model, the next frame hands the transport replication messages and dependent events only for clients authorized in the state the history led to (C07_history).',
         "design_ref": "DESIGN.md §7 C07",
         "note": "The requirement 'ClientTicks exists only on authorized clients' (Bevy required components) is modelled as a flag and tied by the lock-step comparison.",
         "technique": "Lean 4 proof (per-run theorems about executable server/client protocol models) + lock-step model/implementation correspondence on real traces + property oracle on the implementation",
